@@ -173,7 +173,9 @@ Definition file_key (f : str) : str := to_lower f.
     Set<X> [, Clear<X>], IsSet<X> of every field with a (non-constant) field mask or a TL2
     presence bit -- through the same Deconflicter. *)
 Inductive acc_kind := AccNone | AccBit | AccFull.
-Record field_spec := Field { fname : str; facc : acc_kind }.
+(** [fbit]: the field is a bit (type `true` under a field mask, or TL2 `bit`): its Go name is
+    reserved in the scope but no Go struct field is emitted (the template comments it out) *)
+Record field_spec := Field { fname : str; facc : acc_kind; fbit : bool }.
 
 Definition named (fs : list field_spec) : list field_spec :=
   filter (fun f => match fname f with [] => false | _ => true end) fs.
@@ -204,6 +206,11 @@ Definition struct_scope (fs : list field_spec) : list str * list str :=
   (gos, accs).
 
 Definition struct_field_names (fs : list field_spec) : list str := fst (struct_scope fs).
+
+(** the Go struct fields actually emitted: named, not TL2-omitted, not a bit *)
+Definition emitted (f : field_spec) : bool := negb (omitted f) && negb (fbit f).
+Definition struct_emitted_fields (fs : list field_spec) : list str :=
+  List.map snd (filter (fun p => emitted (fst p)) (combine (named fs) (struct_field_names fs))).
 Definition struct_accessor_names (fs : list field_spec) : list str := snd (struct_scope fs).
 
 (** methods of a generated struct type (qt_struct.qtpl).  [struct_methods_always]: emitted for
@@ -259,10 +266,16 @@ Definition consts_ok (names : list tlname) : bool := nodupb (List.map const_name
 Definition files_ok (names : list tlname) : bool :=
   nodupb (List.map file_key (dedup (List.map file_name names))).
 
-(** (c) struct scope: no field or accessor carries the name of one of the methods [ms]
-    generated for the struct *)
+(** (a') with --split-internal every type lives in its own package internal/tl<ns>/tl<GoName>:
+    the import paths must stay different when case is ignored *)
+Definition dirs_ok (names : list tlname) : bool :=
+  let gs := snd (dec_run [] (List.map global_head names)) in
+  nodupb (List.map (fun p => to_lower (ns (fst p) ++ [47] ++ snd p)) (combine names gs)).
+
+(** (c) struct scope: no emitted field or accessor carries the name of one of the methods
+    [ms] generated for the struct *)
 Definition fields_ok (ms : list str) (fs : list field_spec) : bool :=
-  forallb (fun n => negb (mem n ms)) (struct_field_names fs ++ struct_accessor_names fs).
+  forallb (fun n => negb (mem n ms)) (struct_emitted_fields fs ++ struct_accessor_names fs).
 
 (** (d) package internal (no --split-internal): the global type names, unique among
     themselves thanks to gen.globalDec, also avoid the helper identifiers *)
